@@ -114,7 +114,12 @@ func (c *Ctx) FairShare(total int, frac float64) time.Duration {
 	if rem < 0 {
 		rem = 0
 	}
-	return rem / time.Duration(left)
+	// most runs need far less than an equal share: a run may take up to 2.5 shares (never more than what is left)
+	d := rem / time.Duration(left) * 5 / 2
+	if d > rem {
+		d = rem
+	}
+	return d
 }
 
 // Unshare restores the deadline of the whole run.
